@@ -316,5 +316,40 @@ PROPS = {
                      "per-call contracts), the `available_machines=None` default of create_random_operation, module-level "
                      "state shared between generator objects (a field the sidecar does not declare is drift)"],
     ),
-    "C20": dict(level="exploration", functions=[], lemmas=[], tierb=True),
+    "C20": dict(
+        level="proof",
+        functions=["plot_gantt_chart", "_initialize_plot", "_plot_machine_schedules", "_plot_scheduled_operation",
+                   "_get_job_label", "_configure_legend", "_configure_axes",
+                   "Schedule.schedule", "Schedule.makespan", "ScheduledOperation.end_time", "ScheduledOperation.job_id",
+                   "JobShopInstance.num_jobs"],
+        lemmas=["frames-loaded-in-save-order"],
+        tierb=True,
+        trusted=["matplotlib through the contracts of contracts/plotting.py: Axes.broken_barh([(x, w)], (y, h), facecolors=c) draws "
+                 "exactly one bar; set_xlim / set_xticks / legend(handles=) record their arguments; set_xlabel, set_ylabel, "
+                 "grid, set_ylim, set_yticks, set_yticklabels, yaxis.grid, pyplot.title leave bars, x-limits, x-ticks and "
+                 "legend alone; pyplot.subplots() returns a new empty Axes; cmap(norm(j)) is a function of the two objects and "
+                 "j; Patch(facecolor=c, label=l) is a new patch with that colour",
+                 "strings (contracts/frames.py): `\"\".join(c for c in s if c.isdigit())` keeps exactly the decimal digits and "
+                 "distributes over concatenation; format(i, '0Nd') = str(i) left-padded with '0' to width N for i >= 0; int() of "
+                 "a non-empty digit string is its decimal value; os.listdir returns the base names of the files written and "
+                 "nothing else; tuples compare lexicographically, strings by code point (SMT-LIB str.<, str.to_int, "
+                 "str.from_int)",
+                 "ghost prefix sums $$cumS of the machine-list lengths (given by their defining equations as a pre-condition) "
+                 "index the bars: bar cumS(m) + i is operation i of machine m"],
+        assumptions=["the schedule is well-formed (a list of pairwise distinct machine lists of scheduled operations with "
+                     "operations), job_labels -- if given -- cover the job ids that occur",
+                     "proved: plot_gantt_chart draws on a NEW Axes exactly one bar per scheduled operation, bar cumS(m)+i spanning "
+                     "start_time .. end_time (width = duration) of operation i of machine m in the row of machine m "
+                     "(y = 1 + 10 m, height 9), coloured cmap(norm(job_id)); every plotted job has a legend handle whose face "
+                     "colour is the SAME colour term, and the legend lists the handles in increasing job id; the x-axis runs "
+                     "from 0 to the requested limit, or to the makespan (max of the last ends) when none is given, and the last "
+                     "tick is that value; ZeroDivisionError iff number_of_x_ticks == 0, IndexError iff a negative limit is "
+                     "requested; for ALL frame numbers 1 <= i < j the sort key `_load_images` uses orders the file name "
+                     "`_save_frame` writes for i strictly before the one for j (extracted from the source on every run; "
+                     "counterexamples are searched among the neighbours of the powers of ten)",
+                     "bounded only: that frame k is saved right after the k-th dispatch of the recorded history and shows "
+                     "exactly those k operations (create_gantt_chart_frames, the partial plotter with the current-time line, "
+                     "GanttChartCreator), the image files and the GIF/video encoding, distinctness of the colours matplotlib "
+                     "assigns to different jobs, tick positions other than the last"],
+    ),
 }
